@@ -18,7 +18,9 @@ Definition lae (a b : T) : T :=
   let m := nmax Ops a b in
   if neqb Ops m neginf then neginf else nadd Ops m (nlog Ops (nadd Ops (nexp Ops (nsub Ops a m)) (nexp Ops (nsub Ops b m)))).
 Definition fadd (f g : F) : F := match fibin z0 (nadd Ops) f g with Some h => h | None => f end.
-Definition fsub (f g : F) : F := match fibin z0 (nsub Ops) f g with Some h => h | None => f end.
+(* Factor.__sub__: -inf entries of the subtrahend count as 0 (a - (-inf) := a), factor.py:161-165 *)
+Definition gsub (a b : T) : T := if neqb Ops b neginf then a else nsub Ops a b.
+Definition fsub (f g : F) : F := match fibin z0 gsub f g with Some h => h | None => f end.
 Definition fscale (c : T) (f : F) : F := fmap (nmul Ops c) f.
 (* f.logsumexp(drop) *)
 Definition lse_out (f : F) (drop : list nat) : F := match fagg z0 lae neginf f drop with Some h => h | None => f end.
